@@ -260,6 +260,21 @@ def g_lint(r):
         "; ".join(vs), gN(r["lstats"][0]), gN(r["lstats"][1]), gN(r["lstats"][2]), gN(r["ll"]), gN(r["ln"]))
 
 
+def verdict_and_origin(ref_verdict, ref_origin, observed):
+    """The liveness condition is judged on what the phantom answered to the most recent probe within the lifetime (or to
+    the one sent now): the reference tester's verdict, computed from the scripted network answers alone.  The origin (for
+    the finding's key) says whether that verdict is a cached or a fresh one and which error the real tester returned."""
+    origin = ("cached-verdict" if ref_origin == "cached" else "fresh-probe")
+    if len(observed) == 1:
+        ov, oc = observed[0].split("/")
+        origin += "/" + ERRNAME.get(int(oc), oc)
+        if (ov == "1") != ref_verdict:
+            origin += "/tester-said-" + ("live" if ov == "1" else "not-live")
+    else:
+        origin += "/tester-consulted-%d-times" % len(observed)
+    return ref_verdict, origin
+
+
 EMPTY_ORACLES = {"sel4": {"ok": False, "ip": "", "rand": False}, "sel6": {"ok": False, "ip": "", "rand": False},
                  "covert_ok": False, "covert_lit": ""}
 
@@ -283,15 +298,11 @@ def run_live(ctx, base):
     for ci, (c, rs) in enumerate(zip(cases, res["results"])):
         cfg, lvj = c["cfg"], c["lv"]
         lv = lv_tuple(lvj)
-        expected_tester = "uncached" if (lv[1] is None and lv[3] is None) else "cached"
-        if rs["tester"] != expected_tester:
-            ctx.broken("driver", "liveness.New returned a %r tester for %s" % (rs["tester"], lvj), {"lv": lvj})
-            continue
         ref = RefTester(lv)
         tracked = {}
         announced_so_far = set()
         steps_terms = []
-        info = {"cfg": cfg, "lv": lvj, "steps": c["steps"], "kind": c["kind"], "name": c["name"]}
+        info = {"cfg": cfg, "lv": lvj, "steps": c["steps"], "kind": c["kind"], "name": c["name"], "tester_built": rs["tester"]}
         bad = False
         for si, (st, r) in enumerate(zip(c["steps"], rs["steps"])):
             sinfo = dict(info, failing_step=si)
@@ -327,14 +338,9 @@ def run_live(ctx, base):
                     d0 = consult[0]
                     rv, rorigin, rnet = ref.query(d0["phantom"], st["pl"])
                     want_net = rnet
-                    if len(r["verdicts"]) == 1:
-                        ov, oc = r["verdicts"][0].split("/")
-                        live_now = ov == "1"
-                        origin = ("cached-verdict" if not probes else "fresh-probe") + "/" + ERRNAME.get(int(oc), oc)
-                        if live_now != rv:
-                            ref_disagreements += 1
-                    else:
-                        live_now, origin = rv, ("cached-verdict" if rorigin == "cached" else "fresh-probe") + "/tester-not-consulted-once"
+                    live_now, origin = verdict_and_origin(rv, rorigin, r["verdicts"])
+                    if len(r["verdicts"]) == 1 and (r["verdicts"][0][0] == "1") != rv:
+                        ref_disagreements += 1
                 e = base.expect_msg(cfg, live_now, tracked, m, r)
                 for d in e.drafts:
                     if d["probe"]:
@@ -362,14 +368,9 @@ def run_live(ctx, base):
                 live_now, origin, want_net = False, None, False
                 if early and needs:
                     rv, rorigin, want_net = ref.query(key[0], st["pl"])
-                    if len(r["verdicts"]) == 1:
-                        ov, oc = r["verdicts"][0].split("/")
-                        live_now = ov == "1"
-                        origin = ("cached-verdict" if not probes else "fresh-probe") + "/" + ERRNAME.get(int(oc), oc)
-                        if live_now != rv:
-                            ref_disagreements += 1
-                    else:
-                        live_now, origin = rv, "tester-not-consulted-once"
+                    live_now, origin = verdict_and_origin(rv, rorigin, r["verdicts"])
+                    if len(r["verdicts"]) == 1 and (r["verdicts"][0][0] == "1") != rv:
+                        ref_disagreements += 1
                 conds = {"fresh": key not in tracked, "transport-enabled": raw["transport"] in cfg["transports"],
                          "phantom-not-blocked": not blocked, "covert-ok": r["covert_ok"], "not-live": not (needs and live_now)}
                 adm = all(conds.values())
